@@ -14,6 +14,10 @@ Statement clauses:
 R = reset_length_cycles = ceil(reset_length*f), S = stop_length_cycles = ceil(stop_length*f); both >= 1 here
 (zero-length durations are not enumerated: the statement's "asserts ... for exactly the configured number of cycles"
 with 0 cycles cannot be met by a three-state FSM that spends at least one cycle per state; listed as not covered).
+
+Finding on the unchanged tree: cycles_in_reset is sized for the reset length only (Signal(range(R))); whenever
+S > 2**bits_for(R-1) the stop phase never ends (phy_stop stuck high, controller never returns to idle).  Fails for
+(R,S) = (1,2), (2,3), (3,9), ...; witness replayed on the simulator.  Proposed fix: proposed_fixes/C54_reset_counter_width.diff.
 """
 import z3
 from hwv.contract import B, zx, bvc
